@@ -20,7 +20,12 @@ TSub ==
      ELSE LET ref == LayBytes(LayK(E.st, E.e, E.R, E.k)) IN
           /\ Judge("C11", ObsFlagUnion(E.st, E.e, E.R, E.k, E.img), Info("flag_union"))
           /\ Judge("C11", (E.k > 0 /\ ~E.first) => ObsFrame(E.st, E.e, E.R, E.k, before, E.img), Info("frame"))
-          /\ Judge("C04", E.img = ref, Info("image") @@ [at |-> FirstDiff(ref, E.img), explen |-> Len(ref), gotlen |-> Len(E.img)])
+          /\ Judge("C04", E.img = ref,
+                   \* a recorded deviation is recognised exactly: the image is the reference with the section-type GUID
+                   \* truncated to the two bytes the crate's public field can hold, and nothing else differs
+                   IF E.st = "gedata" /\ E.img = SubSeq(ref, 1, 2) \o SubSeq(ref, 17, Len(ref))
+                   THEN [sig |-> "hest/GenericErrorData/section_type_width", explen |-> Len(ref), gotlen |-> Len(E.img)] @@ Info("image")
+                   ELSE Info("image") @@ [at |-> FirstDiff(ref, E.img), explen |-> Len(ref), gotlen |-> Len(E.img)])
 
 TNext == l <= NRec /\ l' = l + 1 /\ TSub
 TSpec == TInit /\ [][TNext]_tvars
